@@ -19,6 +19,7 @@ INVALID_STMT = [
 INVALID_EXPR = ['"unterminated', "/unterminated", "(1 + ", "[1, 2", '{"a": 1', "1 + ", "* 2", "a ? b ? 1 : 2 : 3", "#", "1 @ 2", "\x00",
                 "99999999999999999999", "(3 = 4)", "f(1,, 2)", ")", "if", "(a ? 1 : b ? 2 : 3)", "(1 += 2)", '("s" -= 1)', "[1 *= 2]"]
 # positions whose expression the compiler never translates (it only prints it): the right operand of `.` and the callee of a call
+REPEATED_KEY_CONTEXTS = ['x = {"k": 1, "k": %s};', "x = {1: 0, 1: %s};", 'return {"a": 1, "b": 2, "a": %s};', 'x = f({true: 1, true: %s});']
 UNCOMPILED_CONTEXTS = ["x = a.%s;", "x = %s(3);", "return a.%s;", "if (a.%s) { x = 1; }", "x = f(1)%s;" if False else "x = a[0].%s;", "function q() { return %s(); }"]
 COMPILE_INVALID = ["(1 += 2)", '("s" -= 1)', "[1 *= 2]", "(f() /= 2)"]
 VALID_STMT = ["x = 1;", 'x = "s";', "x++;", "x += 2;", "t(x);", "if (x) { y = 1; } else { y = 2; }", "foreach v in [1] { y = v; }",
@@ -108,6 +109,10 @@ class C13(Prop):
                     c = case(pre + ctx % frag, False, "invalid-in-uncompiled-position")
                     c.tags.add("uncompiled-position")
                     out.append(c)
+        for frag in COMPILE_INVALID + ["(3 = 4)", "#", "1 +"]:
+            for ctx in REPEATED_KEY_CONTEXTS:
+                out.append(case(ctx % frag, False, "invalid-under-repeated-key"))
+                out.append(case(rng.choice(PREFIXES) + "if (c) { " + ctx % frag + " }", False, "invalid-under-repeated-key"))
         for frag in VALID_STMT:
             for ctx in STMT_CONTEXTS:
                 src = ctx % frag
